@@ -2,6 +2,8 @@ package pure
 
 import (
 	"encoding/json"
+	"net/netip"
+	"strconv"
 	"strings"
 	"testing"
 
@@ -35,6 +37,40 @@ type rwKey struct {
 	Typ   string `json:"typ"`
 	IP    string `json:"ip"`
 	Iface string `json:"iface"`
+	Form  string `json:"form"` // "alt": the same address spelled differently (IPv4-mapped; upper-case uncompressed IPv6)
+}
+
+// rwSpell is the text the lookup is made with; rwCanon brings an address the code returned back to the model's spelling.
+func rwSpell(k rwKey) string {
+	if k.Form != "alt" {
+		return k.IP
+	}
+	a, err := netip.ParseAddr(k.IP)
+	if err != nil {
+		return k.IP
+	}
+	if a.Is4() {
+		return "::ffff:" + k.IP
+	}
+	b := a.As16()
+	parts := make([]string, 8)
+	for i := range parts {
+		parts[i] = strings.ToUpper(strconv.FormatUint(uint64(b[2*i])<<8|uint64(b[2*i+1]), 16))
+	}
+
+	return strings.Join(parts, ":")
+}
+
+func rwCanon(ss []string) []string {
+	out := make([]string, len(ss))
+	for i, s := range ss {
+		out[i] = s
+		if a, err := netip.ParseAddr(s); err == nil {
+			out[i] = a.Unmap().String()
+		}
+	}
+
+	return out
 }
 
 type rwRes struct {
@@ -109,18 +145,19 @@ func rwRules(in []rwRule) []ice.AddressRewriteRule {
 func rwLookups(m *ice.VerifRewriteMapper, ag *ice.Agent, keys []rwKey) []rwOut {
 	outs := make([]rwOut, len(keys))
 	for j, k := range keys {
-		ips, matched, mode, err := m.VerifFindExternalIPs(rwTypes[k.Typ], k.IP, k.Iface)
-		outs[j] = rwOut{Res: rwRes{Ext: ips, Mode: rwModeName(mode), Matched: matched}, Lerr: err != nil, Apply: rwApply{Addrs: []string{}}}
+		ip := rwSpell(k)
+		ips, matched, mode, err := m.VerifFindExternalIPs(rwTypes[k.Typ], ip, k.Iface)
+		outs[j] = rwOut{Res: rwRes{Ext: rwCanon(ips), Mode: rwModeName(mode), Matched: matched}, Lerr: err != nil, Apply: rwApply{Addrs: []string{}}}
 		if ag == nil {
 			continue
 		}
 		switch k.Typ {
 		case "host":
-			addrs, keep := ice.VerifApplyHostRewrite(ag, k.IP, k.Iface)
-			outs[j].Apply = rwApply{Keep: keep, Addrs: addrs}
+			addrs, keep := ice.VerifApplyHostRewrite(ag, ip, k.Iface)
+			outs[j].Apply = rwApply{Keep: keep, Addrs: rwCanon(addrs)}
 		case "relay":
-			addrs, keep := ice.VerifResolveRelayAddresses(ag, rwRelayAddr, k.IP, k.Iface)
-			outs[j].Apply = rwApply{Keep: keep, Addrs: addrs}
+			addrs, keep := ice.VerifResolveRelayAddresses(ag, rwRelayAddr, ip, k.Iface)
+			outs[j].Apply = rwApply{Keep: keep, Addrs: rwCanon(addrs)}
 		}
 	}
 
